@@ -142,6 +142,99 @@ func c20sectionOrder(c *fw.Check) {
 		}
 		check("after-parse", m2.String(), m2)
 	}
+	c20mixedTypes(c)
+}
+
+// c20mixedTypes: NUMBERED types (%0 .. %10) next to named types that sort before, between and after
+// the numbers in natural order (`%-t`, `%.node`, `%1st`, `%2b`, `%10z`, `%a`): the type-definition
+// section of parse + print lists them all in ONE natural order (a numbered type compares by its
+// number). Three textual orders (named first, named last, interleaved in reverse natural order).
+func c20mixedTypes(c *fw.Check) {
+	named := []string{"-t", ".node", "$x", "1st", "2b", "10z", "0a", "a", "B", "_u", "a1", "a10", "a2"}
+	var keys []string
+	for n := 0; n <= 10; n++ {
+		keys = append(keys, fmt.Sprint(n))
+	}
+	keys = append(keys, named...)
+	want := append([]string(nil), keys...)
+	sort.SliceStable(want, func(i, j int) bool { return refNatCmp(want[i], want[j]) < 0 })
+	isNum := func(k string) bool { return strings.Trim(k, "0123456789") == "" }
+	line := func(k string, i int) string {
+		if isNum(k) {
+			return fmt.Sprintf("%%%s = type { [%d x i8] }\n", k, i)
+		}
+		if strings.ContainsAny(k[:1], "0123456789") {
+			return fmt.Sprintf("%%\"%s\" = type { [%d x i8] }\n", k, i)
+		}
+		return fmt.Sprintf("%%%s = type { [%d x i8] }\n", k, i)
+	}
+	rev := append([]string(nil), named...)
+	sort.SliceStable(rev, func(i, j int) bool { return refNatCmp(rev[i], rev[j]) > 0 })
+	orders := map[string][]string{}
+	var nums []string
+	for n := 0; n <= 10; n++ {
+		nums = append(nums, fmt.Sprint(n))
+	}
+	orders["named-first"] = append(append([]string(nil), rev...), nums...)
+	orders["named-last"] = append(append([]string(nil), nums...), rev...)
+	var inter []string
+	for i := 0; i < len(nums) || i < len(rev); i++ {
+		if i < len(nums) {
+			inter = append(inter, nums[i])
+		}
+		if i < len(rev) {
+			inter = append(inter, rev[i])
+		}
+	}
+	orders["interleaved"] = inter
+	idx := map[string]int{}
+	for i, k := range keys {
+		idx[k] = i
+	}
+	for _, on := range []string{"interleaved", "named-first", "named-last"} {
+		var b strings.Builder
+		for _, k := range orders[on] {
+			b.WriteString(line(k, idx[k]))
+		}
+		for _, k := range keys {
+			t := "%" + k
+			if !isNum(k) && strings.ContainsAny(k[:1], "0123456789") {
+				t = "%\"" + k + "\""
+			}
+			fmt.Fprintf(&b, "@g%d = global %s zeroinitializer\n", idx[k], t)
+		}
+		text := b.String()
+		if fw.HaveLLVM() {
+			if ok, e := fw.LLVMAccepts(text); !ok {
+				fw.Fatalf("C20 mixed type module (%s) is not valid LLVM: %s", on, fw.Trunc(e, 300))
+			}
+		}
+		m, errs, pan := parseTry(text)
+		if errs != "" || pan != "" {
+			c.Violation("section-order/mixed-types/parse-fails", c20case{Kind: "section-order", A: fw.Trunc(errs+pan, 300), Got: fw.Trunc(text, 800)})
+			continue
+		}
+		var y string
+		if p := fw.Try(func() { y = m.String() }); p != "" {
+			c.Violation("section-order/mixed-types/print-panics", c20case{Kind: "section-order", A: p})
+			continue
+		}
+		// identify each printed definition by its array length.
+		var got []string
+		for _, mm := range regexp.MustCompile(`(?m)^%.* = type \{ \[(\d+) x i8\] \}$`).FindAllStringSubmatch(y, -1) {
+			var i int
+			fmt.Sscan(mm[1], &i)
+			if i >= 0 && i < len(keys) {
+				got = append(got, keys[i])
+			}
+		}
+		c.Case("mixed-types|"+on, strings.Join(got, " "))
+		c.DistinctN(int64(len(keys)))
+		if strings.Join(got, " ") != strings.Join(want, " ") {
+			c.Violation("section-order/mixed-types/"+on, c20case{Kind: "section-order", A: "printed order: " + strings.Join(got, " "), B: "natural order: " + strings.Join(want, " "), Got: fw.Trunc(y, 1500)})
+		}
+		c.Valid(int64(len(keys)))
+	}
 }
 
 // c20idOrder: attribute groups and metadata definitions are listed by ASCENDING ID. Every subset
